@@ -89,6 +89,10 @@ def raising(tok, exc):
     return REC.raising(tok, exc)
 
 
+def closed(tok):
+    return REC.closed(tok) if tok is not None else None
+
+
 class Suspend:
     """an awaitable that really suspends the coroutine once"""
     def __await__(self):
